@@ -331,6 +331,58 @@ pub fn run_check(ctx: &Ctx) -> Report {
         }
     }
     rep.sample(json!({"pair": "stel r1 = string(0.0); [r1, string(-0.0)]"}));
+    // (2c) what a builtin hands out belongs to the caller: changing it in place must not change what the same call, or the same
+    // literal anywhere else, yields afterwards
+    for b in ["string", "type"] {
+        for lit in ["\"abc\"", "\"é\"", "15", "ja", "2.5", "\"\""] {
+            for change in ["r1[0] = \"XYZ\"", "r1[-1] = \"€\"", "r1[0] = r1"] {
+                rep.eval();
+                rep.count("result-changed-in-place");
+                let src = format!("stel r1 = {b}({lit}); als lengte(r1) > 0 {{ {change} }}; stel r2 = {b}({lit}); print(\"{{}} {{}}\", {b}({lit}), lengte({b}({lit}))); [r1 == r2, r2, {b}({lit}), lengte(string({lit}))]");
+                rep.nontrivial(&src);
+                match crate::diff::diff_text(&src) {
+                    Ok(out) => {
+                        if let Verdict::Violation { class, expected, observed } = out.verdict {
+                            rep.violation(viol("result-changed-in-place", (class, json!({"src": src}), expected, observed)));
+                        }
+                    }
+                    Err(e) => rep.violation(viol("result-changed-in-place", ("does-not-parse".into(), json!({"src": src}), "a program".into(), e))),
+                }
+            }
+        }
+    }
+    // (2d) many arguments: a builtin with a fixed number of parameters refuses 2 ... 300 arguments (no value, no crash, nothing
+    // left behind for the expression around it); print takes any number up to the machine's limit
+    for b in ["type", "lengte", "int", "float", "bool", "string"] {
+        for n in [2usize, 3, 100, 254, 255, 256, 257, 258, 300, 511, 512, 513] {
+            rep.eval();
+            rep.count("many-arguments");
+            let args = vec!["\"x\""; n].join(", ");
+            let src = format!("stel r = [7, {b}({args}), 9]; r");
+            let o = run_eval(&src, &RunCfg { budget: VM_BUDGET, audit_heap: true });
+            if !matches!(o.outcome, Outcome::Error(_)) || !o.events.is_empty() {
+                rep.violation(viol("many-arguments", ("many-arguments:not-refused".into(), json!({"src": src}), "an error: the builtin takes one argument".into(), o.render())));
+            }
+        }
+    }
+    for n in [2usize, 100, 254, 255, 256, 257, 300, 512, 513] {
+        rep.eval();
+        rep.count("many-arguments");
+        // n placeholders and n arguments: either the n values in order or the machine's limit
+        let fmt = vec!["{}"; n].join(" ");
+        let args: Vec<String> = (0..n).map(|i| format!("{}", i % 10)).collect();
+        let src = format!("print(\"{fmt}\", {}); [7, 9]", args.join(", "));
+        let o = run_eval(&src, &RunCfg { budget: VM_BUDGET, audit_heap: true });
+        let want = format!("{}\n", args.join(" "));
+        let ok = match &o.outcome {
+            Outcome::Value(_) => o.output == want,
+            Outcome::Error(_) => o.output.is_empty(),
+            _ => false,
+        } && o.events.is_empty();
+        if !ok {
+            rep.violation(viol("many-arguments", ("many-arguments:print".into(), json!({"src": src.chars().take(300).collect::<String>(), "n": n}), format!("the {n} values in order, or an error and no output"), o.render().chars().take(400).collect())));
+        }
+    }
     // (3) round trips and idempotence
     for i in &ints {
         rep.eval();
